@@ -47,6 +47,7 @@ type Network struct {
 	AcceptCount int
 	down        bool
 	dgramTapOn  bool
+	flowCount   map[string]int
 	dgramTap    []byte
 	// TapNew records everything written on stream links created from now on.
 	TapNew bool
